@@ -651,6 +651,11 @@ func newPrio(c Cfg, w *vrt.World) *explore.Instance {
 			panic("prio harness: unknown discipline " + c.Disc)
 		}
 
+		// the caller owns its Inputs map again once the constructor has returned
+		for k := range inMap {
+			delete(inMap, k)
+		}
+		inMap[424242] = nil
 		// producers for inputs that are not prefilled
 		for i := range c.P {
 			n := nOf(i)
@@ -1130,14 +1135,21 @@ func (m *prioMon) spawnV1Control(c Cfg, v1 *v1Ctl, inputs []chan Item) {
 		// nothing to do: the context was cancelled before New
 	case "twice":
 		// Stop() twice in a row from one goroutine and once more from another
+		after := func() {
+			m.stopReturned = true
+			if c.Disc == "s1" && m.handling != 0 {
+				m.f.fail("C16", "Simple.Stop() returned while %d Handle calls are still running", m.handling)
+				m.f.fail("C19", "Simple.Stop() returned while %d handler goroutines are still running user code", m.handling)
+			}
+		}
 		vrt.Spawn("stopper", func() {
 			v1.stop()
-			m.stopReturned = true
+			after()
 			v1.stop()
 		})
 		vrt.Spawn("stopper", func() {
 			v1.stop()
-			m.stopReturned = true
+			after()
 		})
 	case "both":
 		// Stop() from one goroutine, context cancellation from another, in any order
